@@ -8,20 +8,22 @@ import (
 
 // Profile steers the script generator towards the inputs a property needs.
 type Profile struct {
-	Name        string
-	Variants    []int
-	LeadUnits   [2]int // number of leading-track units
-	MaxAudio    int
-	Long        bool // many rotations: tiny segments
-	Boundary    bool // key-frame spacing placed around SegmentMinDuration
-	Durations   bool // irregular durations, odd sample rates
-	ParamRate   int  // percent of random-access units that change parameters (0..100)
-	SmallMax    bool // small SegmentMaxSize with payloads straddling it
-	ConstantLL  bool // C19: constant sample duration, Low-Latency only
-	HalfSecond  bool // sometimes build segments that last exactly N.5 s on whole-nanosecond boundaries
-	Codecs      []string
-	AllowDisk   bool
-	SegCountMax int
+	Name         string
+	Variants     []int
+	LeadUnits    [2]int // number of leading-track units
+	MaxAudio     int
+	Long         bool // many rotations: tiny segments
+	Boundary     bool // key-frame spacing placed around SegmentMinDuration
+	Durations    bool // irregular durations, odd sample rates
+	ParamRate    int  // percent of random-access units that change parameters (0..100)
+	SmallMax     bool // small SegmentMaxSize with payloads straddling it
+	ConstantLL   bool // C19: constant sample duration, Low-Latency only
+	HalfSecond   bool // sometimes build segments that last exactly N.5 s on whole-nanosecond boundaries
+	Codecs       []string
+	AllowDisk    bool
+	MoreAudioLed bool // a third of the scripts more are audio-led
+	MultiAU      bool // with ConstantLL: AAC writes may still carry several access units
+	SegCountMax  int
 }
 
 var audioRates = []int{48000, 44100, 32000, 24000, 22050, 16000, 12000, 11025, 8000, 96000, 88200, 64000}
@@ -33,6 +35,9 @@ func drawTracks(t *rapid.T, p Profile, variant int) []TrackSpec {
 		videoCodecs = []string{"h264", "h264", "h265", "av1", "vp9"}
 	}
 	hasVideo := rapid.IntRange(0, 4).Draw(t, "hasVideo") != 0
+	if p.MoreAudioLed && rapid.IntRange(0, 2).Draw(t, "audioLed") == 0 {
+		hasVideo = false
+	}
 	nAudio := rapid.IntRange(0, p.MaxAudio).Draw(t, "nAudio")
 	if variant == VariantMPEGTS {
 		if nAudio > 1 {
@@ -426,7 +431,7 @@ func DrawScript(t *rapid.T, p Profile) Script {
 				var adv int64
 				if spec.Codec == "aac" {
 					op.N = rapid.SampledFrom([]int{1, 1, 1, 2, 3, 4}).Draw(t, "n")
-					if p.ConstantLL || (ti == lead && p.Long) {
+					if (p.ConstantLL && !p.MultiAU) || (ti == lead && p.Long) {
 						op.N = 1
 					}
 					adv = int64(op.N) * 1024
